@@ -343,7 +343,7 @@ class HplPattern(HplAstObject):
     def __str__(self) -> str:
         t = ''
         if self.max_time < INF:
-            if self.max_time < 1.0:
+            if self.max_time < 1.0 and (self.max_time * 1000) / 1000.0 == self.max_time:
                 t = f' within {self.max_time * 1000}ms'
             else:
                 t = f' within {self.max_time}s'
